@@ -168,6 +168,16 @@ def gen_api_history(seed, nops=30, malformed=0.25, with_io=None, caller_mut=0.0,
             if s_ == "-": ns = 0
             L.append("mkframe %s %s %s" % (v, p, s_))
             k = r.random()
+            if nframes > 0 and r.random() < 0.08:      # hand a stored frame of the object back to it (self-aliasing argument)
+                src = r.randrange(nframes)
+                tgt = r.choice([None, 0, nframes - 1, nframes, nframes + 1, nframes + 3] if malformed > 0 else [None, 0, nframes - 1, nframes])
+                L.append("frameself %d" % src if tgt is None else "frameself %d %d" % (src, tgt)); g.count("op_frameself")
+                if S.frames[src][0] == len(S.pts):
+                    if tgt is None: S.frames.append(S.frames[src])
+                    else:
+                        while len(S.frames) <= tgt: S.frames.append((0, 0))
+                        S.frames[tgt] = S.frames[src]
+                continue
             if k < 0.6 or nframes == 0: L.append("frame %s" % v); idx = None
             else:
                 idx = r.choice([0, max(nframes - 1, 0), nframes, nframes + 1, nframes + r.randint(2, 4), r.randrange(nframes)] if malformed > 0
